@@ -12,22 +12,10 @@ the tree shape are inputs of the model); of Python's `int(s, base)` only the par
 reachable from pycparser tokens is modelled (no surrounding white space, no sign, no
 `_` digit separators, no `0o` prefix -- pycparser's lexer produces none of them).
 -/
+import CffiVerif.Generated.ConstExprPy
+
 namespace CffiVerif.ConstExpr
-
-/-- The exception *type* raised by the evaluator. -/
-inductive Err where
-  | cdef      -- cffi.CDefError
-  | ffi       -- cffi.FFIError ("unsupported expression", "multiple declarations of constant")
-  | value     -- ValueError escaping from `int(s, 16)` / `int(s, 2)` inside the `except` block
-  | index     -- IndexError of `s[0]` on an empty token (unreachable from pycparser)
-  deriving DecidableEq, Repr, Inhabited
-
-deriving instance DecidableEq for Except
-
-/-- The ten binary operators `_parse_constant` handles. -/
-inductive BinOp where
-  | add | sub | mul | div | mod | shl | shr | band | bor | bxor
-  deriving DecidableEq, Repr, Inhabited
+open CffiVerif.Generated
 
 /-- Expression trees as pycparser builds them (`c_ast.Constant`, `UnaryOp`, `ID`,
 `BinaryOp`).  A `BinaryOp` with an operator outside the ten (`<`, `==`, `&&`, `||` …) is
@@ -73,7 +61,8 @@ def pyInt (base : Nat) (s : List Char) : Option Nat :=
   | [] => none
   | _ => digitsVal base s 0
 
-def isSuffixChar (c : Char) : Bool := c == 'u' || c == 'U' || c == 'l' || c == 'L'
+/-- A character of the argument of `s.rstrip('uUlL')` (regenerated from the source). -/
+def isSuffixChar (c : Char) : Bool := ConstExprPy.rstripChars.contains c
 
 /-- `s.rstrip('uUlL')`. -/
 def rstripSuffix (s : List Char) : List Char := (s.reverse.dropWhile isSuffixChar).reverse
@@ -81,94 +70,60 @@ def rstripSuffix (s : List Char) : List Char := (s.reverse.dropWhile isSuffixCha
 def lowerChar (c : Char) : Char :=
   if 65 ≤ c.toNat ∧ c.toNat ≤ 90 then Char.ofNat (c.toNat + 32) else c
 
-/-- `_SIMPLE_ESCAPES` of cparser.py. -/
+/-- `_SIMPLE_ESCAPES[c]` (the dictionary is regenerated from the source). -/
 def simpleEscape (c : Char) : Option Nat :=
-  if c = '\'' then some 39 else if c = '"' then some 34 else if c = '?' then some 63
-  else if c = '\\' then some 92 else if c = '0' then some 0 else if c = 'a' then some 7
-  else if c = 'b' then some 8 else if c = 'f' then some 12 else if c = 'n' then some 10
-  else if c = 'r' then some 13 else if c = 't' then some 9 else if c = 'v' then some 11
-  else none
+  (ConstExprPy.simpleEscapes.find? (fun p => p.1 == c)).map (·.2)
 
-/-- The numeric branch of `_parse_constant` (`'0' <= s[0] <= '9'`). -/
+/-- `except ValueError:` -- the first fall-back whose prefix equals `s.lower()[0:n]` reads the rest
+in its base (`int(s, 16)` accepts the `0x` prefix); its own `ValueError` is swallowed and, like no
+matching fall-back, ends in the `raise` after the try. -/
+def parseFallback : List (List Char × Nat) → List Char → Except Err Int
+  | [], _ => .error ConstExprPy.fallbackFailure
+  | (pre, base) :: rest, s =>
+    if (s.take pre.length).map lowerChar = pre then
+      match pyInt base (s.drop pre.length) with
+      | some v => .ok v
+      | none => .error ConstExprPy.fallbackFailure
+    else parseFallback rest s
+
+/-- The numeric branch of `_parse_constant` (`'0' <= s[0] <= '9'`), driven by the regenerated
+tables: rstrip, `startswith('0')` -> base 8 else base 10, then the fall-backs. -/
 def parseNumber (tok : List Char) : Except Err Int :=
   let s := rstripSuffix tok
-  let first := if s.head? = some '0' then pyInt 8 s else pyInt 10 s
+  let first := if (s.take ConstExprPy.octalPrefix.length = ConstExprPy.octalPrefix)
+    then pyInt ConstExprPy.octalBase s else pyInt ConstExprPy.defaultBase s
   match first with
   | some v => .ok v
-  | none =>
-    -- `except ValueError:`
-    match s with
-    | c0 :: c1 :: rest =>
-      if lowerChar c0 = '0' ∧ lowerChar c1 = 'x' then
-        match pyInt 16 rest with       -- int(s, 16) accepts the "0x" prefix
-        | some v => .ok v
-        | none => .error .value        -- raised inside the handler: not converted
-      else if lowerChar c0 = '0' ∧ lowerChar c1 = 'b' then
-        match pyInt 2 rest with
-        | some v => .ok v
-        | none => .error .value
-      else .error .cdef
-    | _ => .error .cdef
+  | none => parseFallback ConstExprPy.fallbacks s
 
 /-- `_parse_constant` on a `c_ast.Constant`. -/
 def parseConst (tok : List Char) : Except Err Int :=
   match tok with
   | [] => .error .index
   | c0 :: _ =>
-    if 48 ≤ c0.toNat ∧ c0.toNat ≤ 57 then parseNumber tok      -- '0' <= s[0] <= '9'
+    if ConstExprPy.digitFirst.1.toNat ≤ c0.toNat ∧ c0.toNat ≤ ConstExprPy.digitFirst.2.toNat then
+      parseNumber tok                                        -- '0' <= s[0] <= '9'
     else match tok with
       | ['\'', c, '\''] => .ok c.toNat                       -- ord(s[-2])
       | ['\'', '\\', c, '\''] =>
         match simpleEscape c with
         | some v => .ok v
-        | none => .error .cdef
-      | _ => .error .cdef
+        | none => .error ConstExprPy.otherConstantFailure
+      | _ => .error ConstExprPy.otherConstantFailure
 
 /-! ### Operators -/
 
-/-- `Parser._c_div`: Python floor division corrected to C's truncation. -/
-def cDiv (a b : Int) : Except Err Int :=
-  if b = 0 then .error .cdef
-  else
-    let result := a.fdiv b                           -- a // b
-    if (decide (a < 0) != decide (b < 0)) && (a.fmod b != 0) then .ok (result + 1)   -- a % b
-    else .ok result
+/-- `Parser._c_div`, as translated from the source. -/
+def cDiv (a b : Int) : Except Err Int := ConstExprPy.c_div a b
 
-/-- Python's `&` on unbounded integers (two's complement with infinite sign extension);
-`-[m+1]` is `~m`. -/
-def pyAnd : Int → Int → Int
-  | .ofNat m, .ofNat n => .ofNat (m &&& n)
-  | .ofNat m, .negSucc n => .ofNat (m ^^^ (m &&& n))        -- m & ~n
-  | .negSucc m, .ofNat n => .ofNat (n ^^^ (n &&& m))        -- ~m & n
-  | .negSucc m, .negSucc n => .negSucc (m ||| n)            -- ~m & ~n = ~(m | n)
+/-- `exprnode.op` of a `BinaryOp`. -/
+def BinOp.symbol : BinOp → String
+  | .add => "+" | .sub => "-" | .mul => "*" | .div => "/" | .mod => "%"
+  | .shl => "<<" | .shr => ">>" | .band => "&" | .bor => "|" | .bxor => "^"
 
-/-- Python's `|`. -/
-def pyOr : Int → Int → Int
-  | .ofNat m, .ofNat n => .ofNat (m ||| n)
-  | .ofNat m, .negSucc n => .negSucc (n ^^^ (n &&& m))      -- m | ~n = ~(n & ~m)
-  | .negSucc m, .ofNat n => .negSucc (m ^^^ (m &&& n))
-  | .negSucc m, .negSucc n => .negSucc (m &&& n)
-
-/-- Python's `^`. -/
-def pyXor : Int → Int → Int
-  | .ofNat m, .ofNat n => .ofNat (m ^^^ n)
-  | .ofNat m, .negSucc n => .negSucc (m ^^^ n)
-  | .negSucc m, .ofNat n => .negSucc (m ^^^ n)
-  | .negSucc m, .negSucc n => .ofNat (m ^^^ n)
-
-/-- The `BinaryOp` branch, given both operand values. -/
+/-- The `BinaryOp` branch, given both operand values: the dispatch translated from the source. -/
 def applyBin (op : BinOp) (l r : Int) : Except Err Int :=
-  match op with
-  | .add => .ok (l + r)
-  | .sub => .ok (l - r)
-  | .mul => .ok (l * r)
-  | .div => cDiv l r
-  | .mod => do let q ← cDiv l r; pure (l - q * r)
-  | .shl => if r < 0 then .error .cdef else .ok (l * 2 ^ r.toNat)        -- left << right
-  | .shr => if r < 0 then .error .cdef else .ok (l >>> r.toNat)          -- left >> right (floor)
-  | .band => .ok (pyAnd l r)
-  | .bor => .ok (pyOr l r)
-  | .bxor => .ok (pyXor l r)
+  ConstExprPy.parse_constant_binop l r op.symbol
 
 /-- `Parser._parse_constant` (left operand first, as in the code, so that the first error wins). -/
 def eval (env : Env) : Expr → Except Err Int
